@@ -197,32 +197,45 @@ func Association[K comparable, V any](arguments ...any) col.AssociationLike[K, V
 	var key K
 	var value V
 
-	// Process the actual arguments.
+	// Process the actual arguments: the key comes before the value (their types
+	// may be the same) and the optional notation may be anywhere.
+	var count = 0
 	for _, argument := range arguments {
-		switch actual := argument.(type) {
-		case K:
-			key = actual
-		case V:
-			value = actual
-		default:
-			var notationType = ref.TypeOf((*col.NotationLike)(nil)).Elem()
-			var reflectedType = ref.TypeOf(argument)
-			switch {
-			case reflectedType.Implements(notationType):
-				notation = argument.(col.NotationLike)
-			default:
+		var notationType = ref.TypeOf((*col.NotationLike)(nil)).Elem()
+		var reflectedType = ref.TypeOf(argument)
+		switch {
+		case reflectedType != nil && reflectedType.Implements(notationType):
+			notation = argument.(col.NotationLike)
+		case count == 0:
+			var actual, ok = argument.(K)
+			if !ok {
 				var message = fmt.Sprintf(
 					"Unknown argument type passed into the association constructor: %T\n",
-					actual,
+					argument,
 				)
 				panic(message)
 			}
+			key = actual
+			count++
+		case count == 1:
+			var actual, ok = argument.(V)
+			if !ok {
+				var message = fmt.Sprintf(
+					"Unknown argument type passed into the association constructor: %T\n",
+					argument,
+				)
+				panic(message)
+			}
+			value = actual
+			count++
+		default:
+			panic("The constructor for an association takes only a key and a value.")
 		}
 	}
 
 	// Call the right constructor.
 	var class = col.Association[K, V](notation)
-	if !ref.ValueOf(key).IsValid() || !ref.ValueOf(value).IsValid() {
+	if count < 2 {
 		panic("The constructor for an association requires a key and value.")
 	}
 	var association = class.Make(key, value)
